@@ -333,6 +333,10 @@ func (x *Exec) visitInstr(fr *frame, instr ssa.Instruction) continuation {
 		idx := x.get(fr, instr.Index).(*Term)
 		switch xv := xv.(type) {
 		case sliceVal:
+			if idx.op != OConst && onlyLoaded(instr) && len(xv.a) > 1 {
+				fr.env[instr] = x.symIndex(xv.a, idx, instr.Index.Type())
+				break
+			}
 			i := x.boundedIndex(idx, len(xv.a), instr.Index.Type())
 			fr.env[instr] = &xv.a[i]
 		case *value:
@@ -340,6 +344,10 @@ func (x *Exec) visitInstr(fr *frame, instr ssa.Instruction) continuation {
 				x.rtPanic("invalid memory address or nil pointer dereference")
 			}
 			arr := (*xv).(array)
+			if idx.op != OConst && onlyLoaded(instr) && len(arr) > 1 {
+				fr.env[instr] = x.symIndex([]value(arr), idx, instr.Index.Type())
+				break
+			}
 			i := x.boundedIndex(idx, len(arr), instr.Index.Type())
 			fr.env[instr] = &arr[i]
 		default:
@@ -653,4 +661,89 @@ func (x *Exec) initGlobals() {
 	}
 	x.inInit = false
 	x.steps = 0
+}
+
+// symPtr is the address of elems[idx] for a symbolic idx, used only when every use of the
+// address is a load: the load becomes an if-then-else tree over the elements.
+type symPtr struct {
+	elems []value
+	idx   *Term
+}
+
+func onlyLoaded(instr *ssa.IndexAddr) bool {
+	refs := instr.Referrers()
+	if refs == nil || len(*refs) == 0 {
+		return false
+	}
+	for _, r := range *refs {
+		u, ok := r.(*ssa.UnOp)
+		if !ok || u.Op != token.MUL {
+			return false
+		}
+	}
+	return true
+}
+
+func (x *Exec) symIndex(elems []value, idx *Term, it types.Type) value {
+	idx = x.widenIdx(idx, it)
+	inb := x.tb.Ult(idx, x.tb.Const(64, uint64(len(elems))))
+	if !x.branch(inb) {
+		x.rtPanic(fmt.Sprintf("index out of range [symbolic] with length %d", len(elems)))
+	}
+	if !selectable(elems) {
+		i := x.concretize(idx, "index")
+		return &elems[i]
+	}
+	return symPtr{elems: elems, idx: idx}
+}
+
+func selectable(elems []value) bool {
+	switch e0 := elems[0].(type) {
+	case *Term:
+		for _, e := range elems {
+			t, ok := e.(*Term)
+			if !ok || t.sort != e0.sort {
+				return false
+			}
+		}
+		return true
+	case structure:
+		for f := range e0 {
+			col := make([]value, len(elems))
+			for i, e := range elems {
+				s, ok := e.(structure)
+				if !ok || len(s) != len(e0) {
+					return false
+				}
+				col[i] = s[f]
+			}
+			if !selectable(col) {
+				return false
+			}
+		}
+		return true
+	}
+	return false
+}
+
+func (x *Exec) selectValue(elems []value, idx *Term) value {
+	switch e0 := elems[0].(type) {
+	case *Term:
+		ts := make([]*Term, len(elems))
+		for i, e := range elems {
+			ts[i] = e.(*Term)
+		}
+		return x.selectTerm(ts, idx)
+	case structure:
+		out := make(structure, len(e0))
+		for f := range e0 {
+			col := make([]value, len(elems))
+			for i, e := range elems {
+				col[i] = e.(structure)[f]
+			}
+			out[f] = x.selectValue(col, idx)
+		}
+		return out
+	}
+	panic(unsupported{"selectValue"})
 }
